@@ -184,7 +184,10 @@ def scan_file(path: str, lang: str) -> dict:
 
 
 def cfg_key(c: dict) -> str:
-    return '%s/%s/%s' % (c['lang'], c.get('std') or '-', 'pod' if c['pod'] else 'ser')
+    k = '%s/%s/%s' % (c['lang'], c.get('std') or '-', 'pod' if c['pod'] else 'ser')
+    if c.get('opts'):
+        k += '/' + '+'.join(o.lstrip('-') for o in c['opts'])
+    return k
 
 
 def nnvg_cmd(cfg: dict, root_dir: str, lookups, out: str):
@@ -193,6 +196,7 @@ def nnvg_cmd(cfg: dict, root_dir: str, lookups, out: str):
         cmd += ['--experimental-languages', '--language-standard', cfg['std']]
     if cfg['pod']:
         cmd += ['--omit-serialization-support']
+    cmd += list(cfg.get('opts') or [])          # language options (CLI flags), e.g. --target-endianness big
     for l in lookups:
         cmd += ['--lookup-dir', l]
     cmd.append(root_dir)
@@ -200,7 +204,7 @@ def nnvg_cmd(cfg: dict, root_dir: str, lookups, out: str):
 
 
 def run_cfg(case: dict, dirs: dict, base: str, cfg: dict) -> dict:
-    out = os.path.join(base, 'out', cfg_key(cfg).replace('/', '_').replace('+', 'p'))
+    out = os.path.join(base, 'out', re.sub(r'[^A-Za-z0-9_.-]', '_', cfg_key(cfg).replace('c++', 'cpp')))
     os.makedirs(out, exist_ok=True)
     res = {'out': out, 'ok': True, 'log': '', 'files': {}, 'cmds': []}
     roots = [case['main']] + list(case.get('lookup', []))
